@@ -33,6 +33,12 @@ def main(argv):
             fn(chk, tier)
         except EnoughViolations:
             pass
+        except ToolError as e:
+            # a coverage / vacuity guard tripping AFTER confirmed violations is a consequence of them (calls that
+            # deviate early are never explored further): the violations are the verdict
+            if not chk.violations:
+                raise
+            chk.notes["tool_error_after_violations"] = str(e)[:500]
         return chk.finish()
     except ToolError as e:
         print("TOOL-ERROR property=%s: %s" % (prop, e), file=sys.stderr)
